@@ -264,7 +264,9 @@ Dispatch(d, list, vfs, all) ==
             [] h = "MBoxFolderHandler"     -> sec /\ RealOnlyGuard(vfs) /\ v.args = <<>> /\ sv.k = "file" /\ sv.f = "mbox"
             [] h = "PYGHandler"            -> sec /\ RealOnlyGuard(vfs) /\ sv.k = "file" /\ sv.f = "exec" /\ EndsWithQ(v.real, qPyg)
             [] h = "ExecHandler"           -> sec /\ RealOnlyGuard(vfs) /\ sv.k = "file" /\ sv.f = "exec"
-            [] h = "ZIPHandler"            -> sec /\ (zb # <<>> \/ nz)
+            \* (on an archive's index ZIPHandler either probes the working directory - nz - or, once repaired,
+            \*  declines: archives are opened by path, which only the real tree can supply)
+            [] h = "ZIPHandler"            -> sec /\ ((vfs = "real" /\ zb # <<>>) \/ nz)
             [] h = "CompressedFileHandler" -> FALSE               \* no decompressor matches a name of the tree
             [] h = "FileHandler"           -> sec /\ s0.k = "file"
             [] h = "URLTypeRewriter"       -> sec /\ Len(d) >= 3 /\ d[1] = "/" /\ d[3] = "/"
